@@ -94,3 +94,32 @@ def batch_sequence(rng, nb, d, size=(8, 120), shift_p=0.35, dup_p=0.15, integer_
         u = float(rng.choice(UNITS))
         out = [X * u for X in out]
     return out
+
+
+def numpyfy(kw):
+    """the same parameter values held as numpy scalars (numpy.bool_, numpy.int64, numpy.float64): what a parameter grid kept in an
+    array or a DataFrame hands to a constructor"""
+    out = {}
+    for k, v in kw.items():
+        if isinstance(v, bool):
+            out[k] = np.bool_(v)
+        elif isinstance(v, int):
+            out[k] = np.int64(v)
+        elif isinstance(v, float):
+            out[k] = np.float64(v)
+        else:
+            out[k] = v
+    return out
+
+
+def maybe_numpy(kw, case, ctx, keep=()):
+    """every third generated case hands the constructor its parameters as numpy scalars (the models always get the plain values)"""
+    sd = case.get("seed")
+    if "literal" in case or not sd or int(sd[-1]) % 3 != 1:
+        return kw
+    ctx.count("numpy_typed_parameters")
+    out = numpyfy(kw)
+    for k in keep:
+        if k in kw:
+            out[k] = kw[k]
+    return out
